@@ -16,7 +16,7 @@
    Declaration sections in front of the main block (`member_run`, `members_run`, `section_run`, `decls_run`,
    `unit_run`, at the end of Section Frag): the theorems about units are in Proofs/FragmentUnitProofs.v. *)
 From PasfmtVerif Require Import Model.Fragment Model.DirectiveTree Proofs.DirectiveTreeProofs Proofs.ParserKernelProofs Proofs.ParserGrammarProofs
-  Proofs.ParserGrammarTypesProofs Proofs.ParserGrammarCoverProofs Proofs.ParserGrammarEofProofs.
+  Proofs.ParserGrammarTypesProofs Proofs.ParserGrammarCoverProofs Proofs.ParserGrammarEofProofs Proofs.FragmentStructProofs.
 Local Open Scope nat_scope.
 
 Definition plain (t : RawTokenType) : Prop :=
@@ -25,7 +25,9 @@ Definition plain (t : RawTokenType) : Prop :=
   | RTT_Keyword KK_Repeat | RTT_Keyword KK_Until | RTT_Keyword KK_Try | RTT_Keyword KK_Finally | RTT_Keyword KK_Except
   | RTT_Keyword KK_If | RTT_Keyword KK_Then | RTT_Keyword KK_Else | RTT_Keyword KK_While | RTT_Keyword KK_Do
   | RTT_Keyword KK_Case | RTT_Keyword KK_Of | RTT_Op OK_Colon | RTT_IdentifierOrKeyword KK_On | RTT_Keyword KK_On
-  | RTT_Keyword (KK_Var _) | RTT_Keyword (KK_Const _) | RTT_Op (OK_Equal _) | RTT_Eof => True
+  | RTT_Keyword (KK_Var _) | RTT_Keyword (KK_Const _) | RTT_Op (OK_Equal _)
+  | RTT_Keyword KK_Type | RTT_Keyword KK_Record | RTT_Keyword KK_Class | RTT_IdentifierOrKeyword KK_Private | RTT_Keyword KK_Private
+  | RTT_IdentifierOrKeyword KK_Public | RTT_Keyword KK_Public | RTT_Eof => True
   | _ => False
   end.
 
@@ -3442,6 +3444,726 @@ Proof.
 Qed.
 
 
+
+(* ================================================================== *)
+(* declaration sections in front of the main block: `var` (x : T ;)*, `const` (c = d ;)* *)
+(* re-typing the current token and consuming it *)
+(* take_until no_more_separators in front of one `;` that does not end a context: the `;` is consumed *)
+
+(* re-typing that does not apply to the current token *)
+Lemma upd_cur_none stk g s k L c M mc last cx lv a t :
+  ST stk s k L c M mc last cx lv a -> nth_error T k = Some t -> g t = None -> upd_cur pass g s = s.
+Proof.
+  intros H Hk Hg. assert (Hkn : k < n) by (apply nth_error_Some; congruence).
+  unfold upd_cur, idx0. rewrite (ST_cur_index stk _ _ _ _ _ _ _ _ _ _ H Hkn). unfold tt_at.
+  rewrite (ST_toks stk _ _ _ _ _ _ _ _ _ _ H), (mix_nth_ge k k (le_n k)), Hk.
+  destruct t; try reflexivity; cbn [bind]; rewrite (mix_nth_ge k k (le_n k)), Hk; cbn [bind]; rewrite Hg; reflexivity.
+Qed.
+(* the token in front of the current one *)
+Lemma prev_tt_ST stk s k L c M mc last cx lv a t :
+  ST stk s (S k) L c M mc last cx lv a -> nth_error T k = Some t -> t <> RTT_Eof -> S k < n -> prev_tt pass s = Some (fin t).
+Proof.
+  intros H Ht HnE Hk. unfold prev_tt, idx_prev. rewrite (ST_pidx stk _ _ _ _ _ _ _ _ _ _ H), seq_length.
+  rewrite (proj2 (Nat.ltb_lt _ _) Hk).
+  assert (Fs : firstn (S k) (seq 0 (length T)) = seq 0 k ++ [k]).
+  { assert (E : seq 0 (length T) = seq 0 (S k) ++ seq (S k) (length T - S k)) by (rewrite <- seq_app; f_equal; lia).
+    rewrite E, firstn_app, seq_length, Nat.sub_diag, firstn_all2 by (rewrite seq_length; lia). rewrite firstn_O, app_nil_r.
+    rewrite seq_S. reflexivity. }
+  rewrite Fs, rev_app_distr. cbn [rev app find]. unfold filt_at, tt_at.
+  rewrite (ST_toks stk _ _ _ _ _ _ _ _ _ _ H), (mix_nth_lt (S k) k (Nat.lt_succ_diag_r k)), Ht. cbn [option_map].
+  pose proof (fin_plain _ (plain_nth _ _ Ht)) as P.
+  assert (F : tok_filter (fin t) = true).
+  { pose proof (plain_nth _ _ Ht) as P0. destruct t as [o| |k0|k0| | | | | | |]; try reflexivity; try contradiction.
+    - destruct o; try reflexivity; try contradiction. match goal with e : EqKind |- _ => destruct e; reflexivity end.
+    - destruct k0; try reflexivity; contradiction.
+    - destruct k0; try reflexivity; try contradiction; match goal with d : DeclKind |- _ => destruct d; reflexivity end. }
+  rewrite F. cbn [bind]. rewrite (mix_nth_lt (S k) k (Nat.lt_succ_diag_r k)), Ht. reflexivity.
+Qed.
+Lemma prev_plain stk s k L c M mc last cx lv a t : ST stk s k L c M mc last cx lv a -> prev_tt pass s = Some t -> plain t.
+Proof.
+  intros H Hp. unfold prev_tt in Hp. destruct (idx_prev pass s) as [i|]; [|discriminate]. cbn [bind] in Hp. unfold tt_at in Hp.
+  rewrite (ST_toks stk _ _ _ _ _ _ _ _ _ _ H) in Hp. exact (proj1 (Forall_forall _ _) (mix_plain k) t (nth_error_In _ _ Hp)).
+Qed.
+
+(* ---------------- the contexts of declarations *)
+Definition cType : pctx := ctx CT_TypeBlock true P_declaration_section (ParserGrammar.L 1).
+Definition cTD : pctx := ctx CT_TypeDeclaration true P_end (ParserGrammar.L 0).
+Definition cVis : pctx := ctx CT_VisibilityBlock true P_visibility_block_ending (ParserGrammar.L 1).
+Definition Xt : list (pctx * bool) := [(cType, false); (cTop, false)].
+(* the keywords that start a section or the main block *)
+Definition is_sect2 (t : RawTokenType) : bool :=
+  match t with RTT_Keyword (KK_Var _ | KK_Const _ | KK_Type | KK_Begin) => true | _ => false end.
+Lemma is_sect2_ne t : is_sect2 t = true -> t <> RTT_Eof /\ t <> tSemi /\ t <> RTT_Keyword KK_Class.
+Proof. intros H. repeat split; intros ->; discriminate. Qed.
+Lemma ST_cur_some stk s k L c M mc last cx lv a t :
+  ST stk s k L c M mc last cx lv a -> nth_error T k = Some t -> t <> RTT_Eof -> cur_tt pass s = Some t.
+Proof. intros H Ht HnE. rewrite (ST_cur_tt stk _ _ _ _ _ _ _ _ _ _ _ H Ht). destruct t; try reflexivity. contradiction HnE; reflexivity. Qed.
+(* a declaration or type block: ended by a section keyword, by nothing else of the fragment *)
+Definition dtop (x : pctx) : Prop := x = cDecl \/ x = cType.
+Lemma ending_D stk s k L c M mc last x r lv a t :
+  ST stk s k L c M mc last ((x, false) :: r) lv a -> dtop x -> nth_error T k = Some t ->
+  (is_sect2 t = true \/ t = tI \/ t = tColon \/ t = tEq \/ t = tSemi \/ t = tRecord) ->
+  ending_ctx pass s = if is_sect2 t then Some 1 else None.
+Proof.
+  intros H Hx Ht Hc. unfold ending_ctx. rewrite (ST_ctx stk _ _ _ _ _ _ _ _ _ _ H).
+  assert (Ep : eval_pred pass (c_pred x) s = declaration_section pass s /\ c_opaque x = true) by (destruct Hx as [-> | ->]; split; reflexivity).
+  cbn [ending_go]. destruct Ep as [-> ->].
+  assert (HnE : t <> RTT_Eof /\ t <> RTT_Keyword KK_Class) by (destruct Hc as [Hc|[->|[->|[->|[->| ->]]]]]; split; try discriminate; intros ->; discriminate).
+  rewrite (declsec_eq s t (ST_cur_some stk _ _ _ _ _ _ _ _ _ _ _ H Ht (proj1 HnE)) (proj2 HnE)).
+  destruct Hc as [Hc|[->|[->|[->|[->| ->]]]]]; try reflexivity.
+  destruct t as [o| |k0|k0| | | | | | |]; try discriminate. destruct k0; try discriminate; reflexivity.
+Qed.
+(* a visibility block: ended by a visibility keyword or `end` *)
+Definition is_vend (t : RawTokenType) : bool :=
+  match t with RTT_IdentifierOrKeyword (KK_Private | KK_Public) | RTT_Keyword KK_End => true | _ => false end.
+Lemma is_vend_cases t : plain t -> is_vend t = true -> t = tPrivate \/ t = tPublic \/ t = tEnd.
+Proof.
+  intros P H. destruct t as [o| |k0|k0| | | | | | |]; try discriminate; destruct k0; try discriminate; try contradiction; auto.
+Qed.
+Lemma ending_V stk s k L c M mc last r lv a t :
+  ST stk s k L c M mc last ((cVis, false) :: r) lv a -> nth_error T k = Some t ->
+  (is_vend t = true \/ t = tI \/ t = tColon \/ t = tSemi) ->
+  ending_ctx pass s = if is_vend t then Some 1 else None.
+Proof.
+  intros H Ht Hc. unfold ending_ctx. rewrite (ST_ctx stk _ _ _ _ _ _ _ _ _ _ H).
+  cbn [ending_go cVis ctx c_pred c_opaque eval_pred]. unfold visibility_specifier, cur_kk.
+  assert (HnE : t <> RTT_Eof) by (destruct Hc as [Hc|[->|[->| ->]]]; try discriminate; intros ->; discriminate).
+  rewrite (ST_cur_some stk _ _ _ _ _ _ _ _ _ _ _ H Ht HnE).
+  destruct Hc as [Hc|[->|[->| ->]]]; try reflexivity.
+  destruct (is_vend_cases t (plain_nth _ _ Ht) Hc) as [->|[->| ->]]; reflexivity.
+Qed.
+(* the contexts in which members `Identifier : Identifier ;` / `Identifier = Identifier ;` are read *)
+Definition mtop (x : pctx) : Prop := x = cDecl \/ x = cVis.
+Lemma ending_M stk s k L c M mc last x r lv a t :
+  ST stk s k L c M mc last ((x, false) :: r) lv a -> mtop x -> nth_error T k = Some t ->
+  (t = tI \/ t = tColon \/ t = tEq /\ x = cDecl \/ t = tSemi) -> ending_ctx pass s = None.
+Proof.
+  intros H [-> | ->] Ht Hc.
+  - rewrite (ending_D stk _ _ _ _ _ _ _ _ _ _ _ _ H (or_introl eq_refl) Ht); destruct Hc as [->|[->|[[-> _]| ->]]]; try reflexivity; auto 7.
+  - destruct Hc as [->|[->|[[_ Hx]| ->]]]; try discriminate;
+      rewrite (ending_V stk _ _ _ _ _ _ _ _ _ _ _ H Ht); try reflexivity; auto.
+Qed.
+Lemma mtop_ctype stk s k L c M mc last x r lv a : ST stk s k L c M mc last ((x, false) :: r) lv a -> mtop x ->
+  last_ctype pass s = Some (c_type x) /\ (c_type x = CT_DeclarationBlock \/ c_type x = CT_VisibilityBlock).
+Proof. intros H Hx. unfold last_ctype. rewrite (last_ctx_ST stk _ _ _ _ _ _ _ _ _ _ _ _ H). split; [reflexivity|]. destruct Hx as [-> | ->]; auto. Qed.
+
+(* the name that starts a member: the line becomes a Declaration line *)
+Lemma gdecl_name stk f s k L M mc last x r lv a :
+  ST stk s k L [] M mc last ((x, false) :: r) lv a -> mtop x -> nth_error T k = Some tI ->
+  RUN (S f) C_statement s = RUN f C_statement (next_token pass (set_line_type pass LLT_Declaration s)).
+Proof.
+  intros H Hx Hk. pose proof (ending_M stk _ _ _ _ _ _ _ _ _ _ _ _ H Hx Hk ltac:(left; reflexivity)) as E0.
+  rewrite (run_S _ C_statement _ (ST_err stk _ _ _ _ _ _ _ _ _ _ H)).
+  unfold arm_statement. rewrite (ST_cur_tt stk _ _ _ _ _ _ _ _ _ _ _ H Hk). cbn [tI].
+  assert (Pr : statement_prelude pass s = (set_line_type pass LLT_Declaration s, true)).
+  { unfold statement_prelude. rewrite (last_ctx_ST stk _ _ _ _ _ _ _ _ _ _ _ _ H), E0, (ST_at_start stk _ _ _ _ _ _ _ _ _ _ H).
+    destruct Hx as [-> | ->]; reflexivity. }
+  rewrite Pr. cbn [negb starm_of tI].
+  pose proof (set_line_type_ST stk LLT_Declaration _ _ _ _ _ _ _ _ _ _ H) as H0.
+  unfold st_label_cand, label_or_other.
+  assert (Lx : is_label_ctx_excluded pass (set_line_type pass LLT_Declaration s) = true).
+  { unfold is_label_ctx_excluded. destruct (mtop_ctype stk _ _ _ _ _ _ _ _ _ _ _ H0 Hx) as [-> [-> | ->]]; reflexivity. }
+  rewrite Lx, andb_false_r. reflexivity.
+Qed.
+Lemma gdecl_ident stk f s k L c M mc last x r lv a :
+  ST stk s k L c M mc last ((x, false) :: r) lv a -> mtop x -> c <> [] -> nth_error T k = Some tI ->
+  RUN (S f) C_statement s = RUN f C_statement (next_token pass s).
+Proof.
+  intros H Hx Hc Hk. pose proof (ending_M stk _ _ _ _ _ _ _ _ _ _ _ _ H Hx Hk ltac:(left; reflexivity)) as E0.
+  rewrite (run_S _ C_statement _ (ST_err stk _ _ _ _ _ _ _ _ _ _ H)).
+  unfold arm_statement. rewrite (ST_cur_tt stk _ _ _ _ _ _ _ _ _ _ _ H Hk). cbn [tI].
+  rewrite (prelude_ns stk _ _ _ _ _ _ _ _ _ _ _ _ H E0 Hc). cbn [negb starm_of tI].
+  unfold st_label_cand, label_or_other.
+  rewrite (ST_at_start stk _ _ _ _ _ _ _ _ _ _ H). destruct c; [contradiction|reflexivity].
+Qed.
+Lemma gdecl_colon stk f s k L c M mc last x r lv a :
+  ST stk s k L c M mc last ((x, false) :: r) lv a -> mtop x -> c <> [] -> lm_type mc = LLT_Declaration ->
+  nth_error T k = Some tColon -> nth_error T (S k) = Some tI ->
+  RUN (S f) C_statement s = RUN f C_statement (next_token pass s).
+Proof.
+  intros H Hx Hc Hty Hk Hk1. pose proof (ending_M stk _ _ _ _ _ _ _ _ _ _ _ _ H Hx Hk ltac:(right; left; reflexivity)) as E0.
+  rewrite (run_S _ C_statement _ (ST_err stk _ _ _ _ _ _ _ _ _ _ H)).
+  unfold arm_statement. rewrite (ST_cur_tt stk _ _ _ _ _ _ _ _ _ _ _ H Hk). cbn [tColon].
+  rewrite (prelude_ns stk _ _ _ _ _ _ _ _ _ _ _ _ H E0 Hc). cbn [negb starm_of tColon].
+  unfold st_colon.
+  assert (LP : line_parent_of_current pass s = Some (length L, k)).
+  { unfold line_parent_of_current. rewrite (ST_cur_index stk _ _ _ _ _ _ _ _ _ _ H ltac:(apply nth_error_Some; congruence)), (ST_cur_ref stk _ _ _ _ _ _ _ _ _ _ H). reflexivity. }
+  rewrite LP.
+  pose proof (next_token_ST stk _ _ _ _ _ _ _ _ _ _ H ltac:(exists tColon; split; [exact Hk|reflexivity])) as H2.
+  rewrite (ST_cur_type stk _ _ _ _ _ _ _ _ _ _ H2), Hty. cbn [llt_is LogicalLineType_eqb LogicalLineType_idx Nat.eqb].
+  rewrite (ST_cur_tt stk _ _ _ _ _ _ _ _ _ _ _ H2 Hk1). cbn [tI]. unfold t_loop.
+  rewrite (caret_noop_G _ (toks_plain_G _ _ (ST_toks stk _ _ _ _ _ _ _ _ _ _ H2))).
+  destruct (mtop_ctype stk _ _ _ _ _ _ _ _ _ _ _ H2 Hx) as [-> [-> | ->]]; reflexivity.
+Qed.
+(* the `=` of a constant or of a type: re-typed to a declaration `=`; t2 is the token after it *)
+Lemma gdecl_eq stk f s k k0 L M mc last x r lv a t2 :
+  ST stk s k L [k0] M mc last ((x, false) :: r) lv a -> dtop x -> k0 < k -> nth_error T k0 = Some tI -> nth_error T k = Some tEq ->
+  nth_error T (S k) = Some t2 -> (t2 = tI \/ t2 = tRecord \/ t2 = tClass) ->
+  exists s', RUN (S f) C_statement s = RUN f C_statement s' /\ ST stk s' (S k) L [k0; k] M mc last ((x, false) :: r) lv a.
+Proof.
+  intros H Hx Hlt Hk0 Hk Hk2 Ht2.
+  pose proof (ending_D stk _ _ _ _ _ _ _ _ _ _ _ _ H Hx Hk ltac:(right; right; right; left; reflexivity)) as E0. cbn [is_sect2 tEq] in E0.
+  rewrite (run_S _ C_statement _ (ST_err stk _ _ _ _ _ _ _ _ _ _ H)).
+  unfold arm_statement. rewrite (ST_cur_tt stk _ _ _ _ _ _ _ _ _ _ _ H Hk). cbn [tEq].
+  rewrite (prelude_ns stk _ _ _ _ _ _ _ _ _ _ _ _ H E0 ltac:(discriminate)). cbn [negb starm_of].
+  unfold st_equal.
+  assert (LC : forall s1 k1 L1 c1 M1 mc1 last1, ST stk s1 k1 L1 c1 M1 mc1 last1 ((x, false) :: r) lv a -> last_ctype pass s1 = Some (c_type x)).
+  { intros s1 k1 L1 c1 M1 mc1 last1 H1. unfold last_ctype. rewrite (last_ctx_ST stk _ _ _ _ _ _ _ _ _ _ _ _ H1). reflexivity. }
+  rewrite (LC _ _ _ _ _ _ _ H).
+  assert (CL : cur_line_tts pass s = [tI]).
+  { unfold cur_line_tts. rewrite (ST_cur_toks stk _ _ _ _ _ _ _ _ _ _ H). cbn [flat_map]. unfold tt_at.
+    rewrite (ST_toks stk _ _ _ _ _ _ _ _ _ _ H), (mix_nth_lt k k0 Hlt), Hk0. reflexivity. }
+  rewrite CL. cbn [existsb tI negb andb orb].
+  destruct (upd_cur_next_ST stk (fun _ => Some (RTT_Op (OK_Equal EK_Decl))) _ _ _ _ _ _ _ _ _ _ tEq H Hk ltac:(discriminate) eq_refl) as [Eu H2].
+  cbn [app] in H2. unfold set_current_token_type.
+  assert (B : match c_type x with CT_DeclarationBlock | CT_TypeBlock | CT_Statement _ => true | _ => false end = true) by (destruct Hx as [-> | ->]; reflexivity).
+  rewrite B. cbn [andb].
+  rewrite (LC _ _ _ _ _ _ _ H2). unfold t_loop. eexists. split; [|exact H2].
+  destruct Hx as [-> | ->]; [reflexivity|]. cbn [cType ctx c_type].
+  rewrite (ST_cur_tt stk _ _ _ _ _ _ _ _ _ _ _ H2 Hk2). destruct Ht2 as [->|[-> | ->]]; reflexivity.
+Qed.
+Lemma gdecl_semi stk f s k L c M mc last x r lv a t' :
+  ST stk s k L c M mc last ((x, false) :: r) lv a -> mtop x -> c <> [] -> nth_error T k = Some tSemi -> nth_error T (S k) = Some t' -> t' <> tSemi ->
+  RUN (S f) C_statement s = finish_logical_line pass (next_token pass s).
+Proof.
+  intros H Hx Hc Hk Hk1 Hne. pose proof (ending_M stk _ _ _ _ _ _ _ _ _ _ _ _ H Hx Hk ltac:(right; right; right; reflexivity)) as E0.
+  rewrite (run_S _ C_statement _ (ST_err stk _ _ _ _ _ _ _ _ _ _ H)).
+  unfold arm_statement. rewrite (ST_cur_tt stk _ _ _ _ _ _ _ _ _ _ _ H Hk). cbn [tSemi].
+  rewrite (prelude_ns stk _ _ _ _ _ _ _ _ _ _ _ _ H E0 Hc). cbn [negb starm_of].
+  unfold st_semicolon. rewrite (take_until_semi stk _ _ _ _ _ _ _ _ _ _ _ H Hk Hk1 Hne E0). reflexivity.
+Qed.
+(* one member `Identifier : Identifier ;` or (in a const section) `Identifier = Identifier ;` *)
+Lemma gmember_run (cst : bool) stk f s k L M mc last x r lv a t' :
+  ST stk s k L [] M mc last ((x, false) :: r) lv a -> mtop x -> (cst = true -> x = cDecl) ->
+  nth_error T k = Some tI -> nth_error T (S k) = Some (if cst then tEq else tColon) -> nth_error T (S (S k)) = Some tI ->
+  nth_error T (S (S (S k))) = Some tSemi -> nth_error T (S (S (S (S k)))) = Some t' -> t' <> tSemi -> 4 <= f ->
+  ST stk (RUN f C_statement s) (S (S (S (S k)))) (L ++ [[k; S k; S (S k); S (S (S k))]]) []
+     (M ++ [mkLM (first_parent ((x, false) :: r)) (clamp_u16 (plain_sum ((x, false) :: r))) LLT_Declaration])
+     (mkLM None (clamp_u16 (plain_sum ((x, false) :: r))) LLT_Unknown) (length L) ((x, false) :: r) lv a.
+Proof.
+  intros H Hx Hcx Hk Hk1 Hk2 Hk3 Hk4 Hne Hf. destruct f as [|[|[|[|f]]]]; try lia.
+  assert (Hkn : tokfin k) by tokfin_tac. assert (Hkn2 : tokfin (S (S k))) by tokfin_tac.
+  rewrite (gdecl_name stk _ _ _ _ _ _ _ _ _ _ _ H Hx Hk).
+  pose proof (set_line_type_ST stk LLT_Declaration _ _ _ _ _ _ _ _ _ _ H) as H0.
+  pose proof (next_token_ST stk _ _ _ _ _ _ _ _ _ _ H0 Hkn) as H1. cbn [app] in H1.
+  assert (S2 : exists s2, RUN (S (S (S f))) C_statement (next_token pass (set_line_type pass LLT_Declaration s)) = RUN (S (S f)) C_statement s2 /\
+               ST stk s2 (S (S k)) L [k; S k] M (mkLM (lm_parent mc) (lm_level mc) LLT_Declaration) last ((x, false) :: r) lv a).
+  { destruct cst.
+    - rewrite (Hcx eq_refl) in *. exact (gdecl_eq stk _ _ _ _ _ _ _ _ _ _ _ _ tI H1 (or_introl eq_refl) (Nat.lt_succ_diag_r k) Hk Hk1 Hk2 (or_introl eq_refl)).
+    - eexists. split; [exact (gdecl_colon stk _ _ _ _ _ _ _ _ _ _ _ _ H1 Hx ltac:(discriminate) eq_refl Hk1 Hk2)|].
+      exact (next_token_ST stk _ _ _ _ _ _ _ _ _ _ H1 ltac:(exists tColon; split; [exact Hk1|reflexivity])). }
+  destruct S2 as (s2 & -> & H2).
+  rewrite (gdecl_ident stk _ _ _ _ _ _ _ _ _ _ _ _ H2 Hx ltac:(discriminate) Hk2).
+  pose proof (next_token_ST stk _ _ _ _ _ _ _ _ _ _ H2 Hkn2) as H3. cbn [app] in H3.
+  rewrite (gdecl_semi stk _ _ _ _ _ _ _ _ _ _ _ _ _ H3 Hx ltac:(discriminate) Hk3 Hk4 Hne).
+  pose proof (next_token_ST stk _ _ _ _ _ _ _ _ _ _ H3 (tokfin_semi _ Hk3)) as H4. cbn [app] in H4.
+  exact (finish_ST stk _ _ _ _ _ _ _ _ _ _ H4 ltac:(discriminate)).
+Qed.
+
+(* the token t' ends the context on top of X *)
+Definition ends_at (X : list (pctx * bool)) (t' : RawTokenType) : Prop :=
+  t' <> RTT_Eof /\ t' <> tSemi /\
+  forall stk s k L c M mc last lv a, ST stk s k L c M mc last X lv a -> nth_error T k = Some t' -> ending_ctx pass s = Some 1.
+Lemma ends_D x r t' : dtop x -> is_sect2 t' = true -> ends_at ((x, false) :: r) t'.
+Proof.
+  intros Hx Hs. destruct (is_sect2_ne _ Hs) as (H1 & H2 & _). split; [exact H1|]. split; [exact H2|].
+  intros stk s k L c M mc last lv a H Hk. rewrite (ending_D stk _ _ _ _ _ _ _ _ _ _ _ _ H Hx Hk (or_introl Hs)), Hs. reflexivity.
+Qed.
+Lemma ends_V r t' : is_vend t' = true -> ends_at ((cVis, false) :: r) t'.
+Proof.
+  intros Hs. split; [intros ->; discriminate|]. split; [intros ->; discriminate|].
+  intros stk s k L c M mc last lv a H Hk. rewrite (ending_V stk _ _ _ _ _ _ _ _ _ _ _ H Hk (or_introl Hs)), Hs. reflexivity.
+Qed.
+(* the members of one block, up to the token that ends it *)
+Lemma gmembers_run (cst : bool) stk n : forall f s k L M mc last x r lv a t',
+  ST stk s k L [] M mc last ((x, false) :: r) lv a -> mtop x -> (cst = true -> x = cDecl) -> lm_type mc = LLT_Unknown ->
+  first_parent ((x, false) :: r) = None ->
+  toks_at k (render_members [tI; (if cst then tEq else tColon); tI; tSemi] n ++ [t']) -> ends_at ((x, false) :: r) t' -> n + 5 <= f ->
+  exists mc' last', lm_type mc' = LLT_Unknown /\
+  ST stk (RUN f C_structures s) (k + 4 * n) (L ++ map ll_toks (member_lines_at (clamp_u16 (plain_sum ((x, false) :: r))) k n)) []
+     (M ++ map meta_of (member_lines_at (clamp_u16 (plain_sum ((x, false) :: r))) k n)) mc' last' (mark_ended 1 ((x, false) :: r)) lv a.
+Proof.
+  induction n as [|n IH]; intros f s k L M mc last x r lv a t' H Hx Hcx Hty Hfp Ht Hs Hf.
+  - destruct f as [|f]; [lia|]. cbn [render_members app] in Ht. pose proof (toks_at_0 _ _ _ Ht eq_refl) as Hk.
+    destruct Hs as (HnE & _ & Hs).
+    rewrite (structures_stop stk _ _ _ _ _ _ _ _ _ _ _ _ _ H Hk HnE (Hs _ _ _ _ _ _ _ _ _ _ H Hk)).
+    cbn [member_lines_at map Nat.mul]. rewrite !app_nil_r, Nat.add_0_r.
+    exists mc, last. split; [exact Hty|]. exact (update_statuses_ST stk 1 _ _ _ _ _ _ _ _ _ _ H).
+  - destruct f as [|f]; [lia|]. cbn [render_members] in Ht.
+    assert (Hk : nth_error T k = Some tI) by exact (toks_at_0 _ _ _ Ht eq_refl).
+    assert (Hk1 : nth_error T (S k) = Some (if cst then tEq else tColon)) by (rewrite <- Nat.add_1_r; exact (Ht 1 _ eq_refl)).
+    assert (Hk2 : nth_error T (S (S k)) = Some tI) by (replace (S (S k)) with (k + 2) by lia; exact (Ht 2 _ eq_refl)).
+    assert (Hk3 : nth_error T (S (S (S k))) = Some tSemi) by (replace (S (S (S k))) with (k + 3) by lia; exact (Ht 3 _ eq_refl)).
+    assert (Hk4 : exists t4, nth_error T (S (S (S (S k)))) = Some t4 /\ t4 <> tSemi).
+    { replace (S (S (S (S k)))) with (k + 4) by lia. destruct n as [|n'].
+      - exists t'. split; [exact (Ht 4 _ eq_refl)|exact (proj1 (proj2 Hs))].
+      - exists tI. split; [exact (Ht 4 _ eq_refl)|discriminate]. }
+    destruct Hk4 as (t4 & Hk4 & Hne4).
+    pose proof (ending_M stk _ _ _ _ _ _ _ _ _ _ _ _ H Hx Hk ltac:(left; reflexivity)) as E0.
+    rewrite (structures_ident stk _ _ _ _ _ _ _ _ _ _ _ H Hk E0).
+    pose proof (gmember_run cst stk f _ _ _ _ _ _ _ _ _ _ _ H Hx Hcx Hk Hk1 Hk2 Hk3 Hk4 Hne4 ltac:(lia)) as H1.
+    rewrite Hfp in H1.
+    assert (Ht' : toks_at (k + 4) (render_members [tI; (if cst then tEq else tColon); tI; tSemi] n ++ [t'])).
+    { apply (toks_at_shift k 4 [tI; (if cst then tEq else tColon); tI; tSemi]); [exact Ht|reflexivity]. }
+    replace (S (S (S (S k)))) with (k + 4) in H1 by lia.
+    destruct (IH f _ _ _ _ _ _ _ _ _ _ t' H1 Hx Hcx eq_refl Hfp Ht' Hs ltac:(lia)) as (mc' & last' & Ty' & H2).
+    exists mc', last'. split; [exact Ty'|].
+    cbn [member_lines_at map ll_toks meta_of ll_parent ll_level ll_type].
+    replace (k + 4 * S n) with (k + 4 + 4 * n) by lia.
+    replace (k + 1) with (S k) by lia. replace (k + 2) with (S (S k)) by lia. replace (k + 3) with (S (S (S k))) by lia.
+    rewrite <- !app_assoc in H2. cbn [app] in H2. exact H2.
+Qed.
+
+(* ---------------- type sections: `Identifier = record|class ... end ;` *)
+Definition Xc : list (pctx * bool) := (cTD, false) :: Xt.
+Definition Xv : list (pctx * bool) := (cVis, false) :: Xc.
+(* the name of a type *)
+Lemma tdef_name stk f s k L M mc last lv a :
+  ST stk s k L [] M mc last Xt lv a -> nth_error T k = Some tI -> nth_error T (S k) = Some tEq ->
+  RUN (S f) C_statement s = RUN f C_statement (next_token pass (set_line_type pass LLT_Declaration s)).
+Proof.
+  intros H Hk Hk1.
+  pose proof (ending_D stk _ _ _ _ _ _ _ _ _ _ _ _ H (or_intror eq_refl) Hk ltac:(right; left; reflexivity)) as E0. cbn [is_sect2 tI] in E0.
+  rewrite (run_S _ C_statement _ (ST_err stk _ _ _ _ _ _ _ _ _ _ H)).
+  unfold arm_statement. rewrite (ST_cur_tt stk _ _ _ _ _ _ _ _ _ _ _ H Hk). cbn [tI].
+  assert (Pr : statement_prelude pass s = (set_line_type pass LLT_Declaration s, true)).
+  { unfold statement_prelude. rewrite (last_ctx_ST stk _ _ _ _ _ _ _ _ _ _ _ _ H), E0, (ST_at_start stk _ _ _ _ _ _ _ _ _ _ H). reflexivity. }
+  rewrite Pr. cbn [negb starm_of tI].
+  pose proof (set_line_type_ST stk LLT_Declaration _ _ _ _ _ _ _ _ _ _ H) as H0.
+  unfold st_label_cand, label_or_other.
+  rewrite (next_tt_ST stk _ _ _ _ _ _ _ _ _ _ _ H0 Hk1 ltac:(discriminate)). cbn [tEq o_colon]. rewrite andb_false_r. reflexivity.
+Qed.
+(* `record` / `class` after the `=`: the line of the name is finished and the body is read *)
+Lemma tdef_struct stk f s k L c M mc last lv a tk t3 :
+  ST stk s (S k) L c M mc last Xt lv a -> c <> [] -> nth_error T k = Some tEq -> nth_error T (S k) = Some tk -> (tk = tRecord \/ tk = tClass) ->
+  nth_error T (S (S k)) = Some t3 -> is_body_start t3 ->
+  RUN (S f) C_statement s = st_struct_type_body pass (RUN f) (next_token pass s).
+Proof.
+  intros H Hc Hk0 Hk Htk Hk3 Ht3.
+  assert (HnE : tk <> RTT_Eof) by (destruct Htk as [-> | ->]; discriminate).
+  assert (Hn : S (S k) < n) by (apply nth_error_Some; congruence).
+  assert (E0 : ending_ctx pass s = None).
+  { destruct Htk as [-> | ->].
+    - rewrite (ending_D stk _ _ _ _ _ _ _ _ _ _ _ _ H (or_intror eq_refl) Hk); [reflexivity|auto 8].
+    - unfold ending_ctx. rewrite (ST_ctx stk _ _ _ _ _ _ _ _ _ _ H). cbn [Xt ending_go cType ctx c_pred c_opaque eval_pred].
+      unfold declaration_section. rewrite (prev_tt_ST stk _ _ _ _ _ _ _ _ _ _ _ H Hk0 ltac:(discriminate) ltac:(lia)), (ST_cur_tt stk _ _ _ _ _ _ _ _ _ _ _ H Hk).
+      reflexivity. }
+  rewrite (run_S _ C_statement _ (ST_err stk _ _ _ _ _ _ _ _ _ _ H)).
+  unfold arm_statement. rewrite (ST_cur_some stk _ _ _ _ _ _ _ _ _ _ _ H Hk HnE).
+  rewrite (prelude_ns stk _ _ _ _ _ _ _ _ _ _ _ _ H E0 Hc). cbn [negb].
+  assert (Sa : starm_of tk = ST_struct_type) by (destruct Htk as [-> | ->]; reflexivity). rewrite Sa.
+  pose proof (next_token_ST stk _ _ _ _ _ _ _ _ _ _ H ltac:(exists tk; split; [exact Hk|destruct Htk as [-> | ->]; reflexivity])) as H1.
+  assert (HnE3 : t3 <> RTT_Eof) by (destruct Ht3 as [->|[->|[->| ->]]]; discriminate).
+  pose proof (ST_cur_some stk _ _ _ _ _ _ _ _ _ _ _ H1 Hk3 HnE3) as C1.
+  cbv iota. exact (st_struct_type_plain pass _ _ _ C1 Ht3).
+Qed.
+
+(* `end ;` after the body of a record or class *)
+Lemma o_semicolon_ne t : t <> tSemi -> o_semicolon (Some t) = false.
+Proof. intros H. destruct t as [o| | | | | | | | | |]; try reflexivity. destruct o; try reflexivity. contradiction H; reflexivity. Qed.
+Lemma tdef_tail stk p s ke L M mc last lv a t' :
+  ST stk s ke L [] M mc last Xt lv a -> lm_type mc = LLT_Unknown ->
+  nth_error T ke = Some tEnd -> nth_error T (S ke) = Some tSemi -> nth_error T (S (S ke)) = Some t' -> (t' = tI \/ is_sect2 t' = true) ->
+  ST stk (finish_logical_line pass (take_until pass (no_more_separators pass)
+            (simple_op_until pass (after_semicolon pass) (keyword_consolidator pass p) (next_token pass (finish_logical_line pass s)))))
+     (S (S ke)) (L ++ [[ke; S ke]]) [] (M ++ [mkLM None 1%N LLT_Unknown]) (mkLM None 1%N LLT_Unknown) (length L) Xt lv a.
+Proof.
+  intros H Hty He Hs Ht' Hc.
+  assert (Hne : t' <> tSemi /\ t' <> RTT_Eof) by (destruct Hc as [-> | Hc]; [split; discriminate|destruct (is_sect2_ne _ Hc) as (A & B & _); split; assumption]).
+  destruct Hne as [Hne HnE].
+  assert (Hn : S (S ke) < n) by (apply nth_error_Some; congruence).
+  pose proof (finish_empty_ST stk _ _ _ _ _ _ _ _ _ H) as H1.
+  pose proof (next_token_ST stk _ _ _ _ _ _ _ _ _ _ H1 ltac:(exists tEnd; split; [exact He|reflexivity])) as H2. cbn [app] in H2.
+  pose proof (next_token_ST stk _ _ _ _ _ _ _ _ _ _ H2 (tokfin_semi _ Hs)) as H3. cbn [app] in H3.
+  match type of H2 with ST _ ?x _ _ _ _ _ _ _ _ _ => set (s2 := x) in * end.
+  assert (E2 : ending_ctx pass s2 = None).
+  { rewrite (ending_D stk _ _ _ _ _ _ _ _ _ _ _ _ H2 (or_intror eq_refl) Hs); [reflexivity|auto 8]. }
+  assert (Eq : simple_op_until pass (after_semicolon pass) (keyword_consolidator pass p) s2 = next_token pass s2).
+  { unfold simple_op_until, op_until.
+    assert (Hrem : remaining pass s2 + 2 = S (S (remaining pass s2))) by lia. rewrite Hrem.
+    cbn [op_until_go]. rewrite (ST_err stk _ _ _ _ _ _ _ _ _ _ H2), (ST_cur_tt stk _ _ _ _ _ _ _ _ _ _ _ H2 Hs). cbn [tSemi].
+    unfold after_semicolon at 1. rewrite (prev_tt_ST stk _ _ _ _ _ _ _ _ _ _ _ H2 He ltac:(discriminate) ltac:(lia)). cbn [fin retype tEnd o_semicolon andb].
+    unfold is_ending. rewrite E2.
+    unfold keyword_consolidator. rewrite !(ST_cur_tt stk _ _ _ _ _ _ _ _ _ _ _ H2 Hs). cbn [tSemi].
+    rewrite (ST_err stk _ _ _ _ _ _ _ _ _ _ H3), (ST_cur_some stk _ _ _ _ _ _ _ _ _ _ _ H3 Ht' HnE).
+    unfold after_semicolon. rewrite (prev_tt_ST stk _ _ _ _ _ _ _ _ _ _ _ H3 Hs ltac:(discriminate) Hn).
+    rewrite (ST_cur_some stk _ _ _ _ _ _ _ _ _ _ _ H3 Ht' HnE), (o_semicolon_ne _ Hne). reflexivity. }
+  rewrite Eq.
+  rewrite (take_until_stop _ _ (ST_err stk _ _ _ _ _ _ _ _ _ _ H3)).
+  2: { rewrite (ST_cur_some stk _ _ _ _ _ _ _ _ _ _ _ H3 Ht' HnE). discriminate. }
+  2: { left. unfold no_more_separators. rewrite (ST_cur_some stk _ _ _ _ _ _ _ _ _ _ _ H3 Ht' HnE), (o_semicolon_ne _ Hne). reflexivity. }
+  pose proof (finish_ST stk _ _ _ _ _ _ _ _ _ _ H3 ltac:(discriminate)) as H4. cbn [lm_type] in H4.
+  exact H4.
+Qed.
+
+
+(* ---------------- the visibility sections of a class, up to its `end` *)
+Fixpoint vneed (vs : list (bool * nat)) : nat := match vs with [] => 0 | (_, j) :: r => Nat.max j (vneed r) end.
+Lemma vsecs_head r : exists t'' rest, render_vsecs r ++ [tEnd] = t'' :: rest /\ is_vend t'' = true.
+Proof. destruct r as [|[[|] j] r]; cbn [render_vsecs app]; eexists _, _; split; reflexivity. Qed.
+Lemma render_fields_length j : length (render_fields j) = 4 * j.
+Proof. unfold render_fields. rewrite render_members_length. cbn [length]. lia. Qed.
+Lemma prev_not_strict stk s k L c M mc last cx lv a :
+  ST stk s k L c M mc last cx lv a ->
+  match prev_tt pass s with Some (RTT_IdentifierOrKeyword KK_Strict) => consolidate_prev_keyword pass s | _ => s end = s.
+Proof.
+  intros H. destruct (prev_tt pass s) as [t|] eqn:Ep; [|reflexivity]. pose proof (prev_plain stk _ _ _ _ _ _ _ _ _ _ _ H Ep) as P.
+  destruct t as [o| |k0|k0| | | | | | |]; try reflexivity. destruct k0; try reflexivity; contradiction.
+Qed.
+Lemma vsecs_run stk vs : forall f s k L M mc last lv a,
+  ST stk s k L [] M mc last Xc lv a -> lm_type mc = LLT_Unknown -> toks_at k (render_vsecs vs ++ [tEnd]) ->
+  vneed vs + 7 + length vs <= f ->
+  exists mc' last', lm_type mc' = LLT_Unknown /\
+    ST stk (RUN f C_structures s) (k + length (render_vsecs vs)) (L ++ map ll_toks (vsec_lines k vs)) []
+       (M ++ map meta_of (vsec_lines k vs)) mc' last' (mark_ended 1 Xc) lv a.
+Proof.
+  induction vs as [|[pv j] r IH]; intros f s k L M mc last lv a H Hty Ht Hf.
+  - destruct f as [|f]; [lia|]. cbn [render_vsecs app] in Ht. pose proof (toks_at_0 _ _ _ Ht eq_refl) as Hk.
+    assert (E : ending_ctx pass s = Some 1).
+    { unfold ending_ctx. rewrite (ST_ctx stk _ _ _ _ _ _ _ _ _ _ H). cbn [Xc ending_go cTD ctx c_pred c_opaque eval_pred].
+      rewrite (ST_cur_tt stk _ _ _ _ _ _ _ _ _ _ _ H Hk). reflexivity. }
+    rewrite (structures_stop stk _ _ _ _ _ _ _ _ _ _ _ _ _ H Hk ltac:(discriminate) E).
+    cbn [render_vsecs vsec_lines map length]. rewrite !app_nil_r, Nat.add_0_r.
+    exists mc, last. split; [exact Hty|]. exact (update_statuses_ST stk 1 _ _ _ _ _ _ _ _ _ _ H).
+  - cbn [vneed length] in Hf. destruct f as [|[|[|f]]]; try lia. cbn [render_vsecs app] in Ht. rewrite <- app_assoc in Ht.
+    set (tv := if pv then tPrivate else tPublic) in *.
+    assert (Hk : nth_error T k = Some tv) by exact (toks_at_0 _ _ _ Ht eq_refl).
+    assert (HnE : tv <> RTT_Eof) by (unfold tv; destruct pv; discriminate).
+    destruct (vsecs_head r) as (t'' & rest & Er & Hv'').
+    assert (Ht1 : toks_at (S k) (render_members [tI; tColon; tI; tSemi] j ++ [t''])).
+    { rewrite <- Nat.add_1_r. apply (toks_at_prefix _ _ rest). rewrite <- app_assoc. cbn [app]. rewrite <- Er.
+      apply (toks_at_shift k 1 [tv]); [|reflexivity]. exact Ht. }
+    assert (Ht2 : toks_at (S k + 4 * j) (render_vsecs r ++ [tEnd])).
+    { replace (S k + 4 * j) with (k + (1 + 4 * j)) by lia.
+      apply (toks_at_shift k _ (tv :: render_fields j)); [exact Ht|].
+      cbn [length]. rewrite render_fields_length. lia. }
+    rewrite (run_S _ C_structures _ (ST_err stk _ _ _ _ _ _ _ _ _ _ H)).
+    unfold arm_structures. rewrite (ST_cur_some stk _ _ _ _ _ _ _ _ _ _ _ H Hk HnE).
+    assert (E1 : ending_ctx pass s = None).
+    { unfold ending_ctx. rewrite (ST_ctx stk _ _ _ _ _ _ _ _ _ _ H). cbn [Xc ending_go cTD ctx c_pred c_opaque eval_pred].
+      rewrite (ST_cur_some stk _ _ _ _ _ _ _ _ _ _ _ H Hk HnE). unfold tv. destruct pv; reflexivity. }
+    rewrite E1.
+    assert (Sa : sarm_of tv = SA_visibility) by (unfold tv; destruct pv; reflexivity). rewrite Sa.
+    unfold sa_visibility.
+    assert (It : is_in_type_decl pass s = true) by (unfold is_in_type_decl, any_ctype; rewrite (ST_ctx stk _ _ _ _ _ _ _ _ _ _ H); reflexivity).
+    rewrite It, (prev_not_strict stk _ _ _ _ _ _ _ _ _ _ H).
+    destruct (upd_cur_next_ST stk (fun t => match t with RTT_IdentifierOrKeyword k0 => Some (RTT_Keyword k0) | _ => None end)
+                _ _ _ _ _ _ _ _ _ _ _ H Hk HnE ltac:(unfold tv; destruct pv; reflexivity)) as [Eu H2].
+    cbn [app] in H2. unfold consolidate_current_keyword.
+    pose proof (finish_ST stk _ _ _ _ _ _ _ _ _ _ H2 ltac:(discriminate)) as H3. rewrite Hty in H3.
+    change (first_parent Xc) with (@None (nat * nat)) in H3. change (clamp_u16 (plain_sum Xc)) with 1%N in H3.
+    change (ctx CT_VisibilityBlock true P_visibility_block_ending (ParserGrammar.L 1)) with cVis.
+    rewrite (with_ctx_block f cVis _ (ST_err stk _ _ _ _ _ _ _ _ _ _ H3) eq_refl).
+    pose proof (finish_empty_ST stk _ _ _ _ _ _ _ _ _ H3) as H4.
+    pose proof (push_ctx_ST stk cVis _ _ _ _ _ _ _ _ _ _ H4) as H5.
+    destruct (gmembers_run false stk j f _ _ _ _ _ _ _ _ _ _ t'' H5 (or_intror eq_refl) ltac:(discriminate) eq_refl eq_refl Ht1 (ends_V _ _ Hv'') ltac:(lia))
+      as (mc6 & last6 & Ty6 & H6).
+    change (clamp_u16 (plain_sum ((cVis, false) :: Xc))) with 2%N in H6.
+    pose proof (finish_empty_ST stk _ _ _ _ _ _ _ _ _ H6) as H7.
+    change (mark_ended 1 ((cVis, false) :: Xc)) with ((cVis, true) :: Xc) in H7.
+    pose proof (pop_ctx_ST stk _ _ _ _ _ _ _ _ _ _ _ H7) as H8.
+    unfold s_loop.
+    destruct (IH (S (S f)) _ _ _ _ _ _ _ _ H8 eq_refl Ht2 ltac:(lia)) as (mc' & last' & Ty' & H9).
+    exists mc', last'. split; [exact Ty'|].
+    replace (k + length (render_vsecs ((pv, j) :: r))) with (S k + 4 * j + length (render_vsecs r))
+      by (cbn [render_vsecs length]; rewrite app_length, render_fields_length; lia).
+    eapply (ST_lists stk); [exact H9| |].
+    + cbn [vsec_lines map ll_toks]. rewrite map_app, <- !app_assoc. cbn [app].
+      replace (k + 1) with (S k) by lia. replace (S k + 4 * j) with (k + 1 + 4 * j) by lia. reflexivity.
+    + cbn [vsec_lines map meta_of ll_parent ll_level ll_type]. rewrite map_app, <- !app_assoc. cbn [app].
+      replace (k + 1) with (S k) by lia. replace (S k + 4 * j) with (k + 1 + 4 * j) by lia. reflexivity.
+Qed.
+
+(* ---------------- one type definition `Identifier = record|class fields sections end ;` *)
+Lemma body_head n0 vs rest : exists t3 rest', render_fields n0 ++ render_vsecs vs ++ tEnd :: rest = t3 :: rest' /\ is_body_start t3.
+Proof.
+  destruct n0 as [|n0]; [|eexists _, _; split; [reflexivity|left; reflexivity]].
+  destruct vs as [|[[|] j] r]; cbn [render_fields render_members render_vsecs app]; eexists _, _; (split; [reflexivity|]); unfold is_body_start; auto.
+Qed.
+Lemma tbody_run stk tk n0 vs f s k L M mc last lv a t' :
+  ST stk s k L [] M mc last Xt lv a -> (tk = tRecord \/ tk = tClass) ->
+  toks_at k (tI :: tEq :: tk :: render_fields n0 ++ render_vsecs vs ++ [tEnd; tSemi; t']) -> (t' = tI \/ is_sect2 t' = true) ->
+  n0 + 5 <= f -> vneed vs + 7 + length vs <= f ->
+  let e := k + 3 + 4 * n0 + length (render_vsecs vs) in
+  let bl := member_lines_at 2%N (k + 3) n0 ++ vsec_lines (k + 3 + 4 * n0) vs in
+  exists last',
+    ST stk (RUN (S (S (S f))) C_statement s) (e + 2) (L ++ [k; k + 1; k + 2] :: map ll_toks bl ++ [[e; e + 1]]) []
+       (M ++ mkLM None 1%N LLT_Declaration :: map meta_of bl ++ [mkLM None 1%N LLT_Unknown]) (mkLM None 1%N LLT_Unknown) last' Xt lv a.
+Proof.
+  intros H Htk Ht Hc Hf1 Hf2 e bl.
+  assert (Hk : nth_error T k = Some tI) by exact (toks_at_0 _ _ _ Ht eq_refl).
+  assert (Hk1 : nth_error T (S k) = Some tEq) by (rewrite <- Nat.add_1_r; exact (Ht 1 _ eq_refl)).
+  assert (Hk2 : nth_error T (S (S k)) = Some tk) by (replace (S (S k)) with (k + 2) by lia; exact (Ht 2 _ eq_refl)).
+  assert (Ht3 : toks_at (S (S (S k))) (render_fields n0 ++ render_vsecs vs ++ [tEnd; tSemi; t'])).
+  { replace (S (S (S k))) with (k + 3) by lia. apply (toks_at_shift k 3 [tI; tEq; tk]); [exact Ht|reflexivity]. }
+  destruct (body_head n0 vs [tSemi; t']) as (t3 & rest3 & E3 & B3).
+  assert (Hk3 : nth_error T (S (S (S k))) = Some t3) by (apply (toks_at_0 _ (render_fields n0 ++ render_vsecs vs ++ [tEnd; tSemi; t'])); [exact Ht3|rewrite E3; reflexivity]).
+  assert (HnE3 : t3 <> RTT_Eof) by (destruct B3 as [->|[->|[->| ->]]]; discriminate).
+  (* the name and the `=` *)
+  rewrite (tdef_name stk _ _ _ _ _ _ _ _ _ H Hk Hk1).
+  pose proof (set_line_type_ST stk LLT_Declaration _ _ _ _ _ _ _ _ _ _ H) as H0.
+  pose proof (next_token_ST stk _ _ _ _ _ _ _ _ _ _ H0 ltac:(exists tI; split; [exact Hk|reflexivity])) as H1. cbn [app] in H1.
+  destruct (gdecl_eq stk (S f) _ _ _ _ _ _ _ _ _ _ _ tk H1 (or_intror eq_refl) (Nat.lt_succ_diag_r k) Hk Hk1 Hk2
+              ltac:(destruct Htk as [-> | ->]; auto)) as (s2 & Eq2 & H2).
+  rewrite Eq2.
+  (* record / class *)
+  rewrite (tdef_struct stk f _ _ _ _ _ _ _ _ _ tk t3 H2 ltac:(discriminate) Hk1 Hk2 Htk Hk3 B3).
+  pose proof (next_token_ST stk _ _ _ _ _ _ _ _ _ _ H2 ltac:(exists tk; split; [exact Hk2|destruct Htk as [-> | ->]; reflexivity])) as H3. cbn [app] in H3.
+  unfold st_struct_type_body. cbv zeta.
+  pose proof (finish_ST stk _ _ _ _ _ _ _ _ _ _ H3 ltac:(discriminate)) as H4. cbn [lm_type] in H4.
+  change (first_parent Xt) with (@None (nat * nat)) in H4. change (clamp_u16 (plain_sum Xt)) with 1%N in H4.
+  pose proof (push_ctx_ST stk cTD _ _ _ _ _ _ _ _ _ _ H4) as H5.
+  pose proof (push_ctx_ST stk cVis _ _ _ _ _ _ _ _ _ _ H5) as H6.
+  change (ctx CT_TypeDeclaration true P_end (ParserGrammar.L 0)) with cTD.
+  change (ctx CT_VisibilityBlock true P_visibility_block_ending (ParserGrammar.L 1)) with cVis.
+  match type of H6 with ST _ ?x _ _ _ _ _ _ _ _ _ => set (s6 := x) in * end.
+  rewrite (ST_cur_some stk _ _ _ _ _ _ _ _ _ _ _ H6 Hk3 HnE3).
+  assert (G : match t3 with RTT_Op OK_LBrack => match next_tt pass s6 with Some (RTT_TextLiteral _) => true | _ => false end | _ => false end = false)
+    by (destruct B3 as [->|[->|[->| ->]]]; reflexivity).
+  rewrite G.
+  (* the fields in front of the first visibility keyword *)
+  destruct (vsecs_head vs) as (t4 & rest4 & E4 & V4).
+  assert (Ht4 : toks_at (S (S (S k))) (render_members [tI; tColon; tI; tSemi] n0 ++ [t4])).
+  { apply (toks_at_prefix _ _ (rest4 ++ [tSemi; t'])). rewrite <- app_assoc. cbn [app]. rewrite app_comm_cons, <- E4, <- app_assoc. exact Ht3. }
+  destruct (gmembers_run false stk n0 f _ _ _ _ _ _ _ _ _ _ t4 H6 (or_intror eq_refl) ltac:(discriminate) eq_refl eq_refl Ht4 (ends_V _ _ V4) Hf1)
+    as (mc7 & last7 & Ty7 & H7).
+  change (clamp_u16 (plain_sum ((cVis, false) :: (cTD, false) :: Xt))) with 2%N in H7.
+  change (mark_ended 1 ((cVis, false) :: (cTD, false) :: Xt)) with ((cVis, true) :: Xc) in H7.
+  pose proof (pop_ctx_ST stk _ _ _ _ _ _ _ _ _ _ _ H7) as H8.
+  (* the visibility sections *)
+  assert (Ht5 : toks_at (S (S (S k)) + 4 * n0) (render_vsecs vs ++ [tEnd])).
+  { apply (toks_at_prefix _ _ [tSemi; t']). rewrite <- app_assoc. cbn [app].
+    apply (toks_at_shift _ _ (render_fields n0)); [exact Ht3|apply render_fields_length]. }
+  destruct (vsecs_run stk vs f _ _ _ _ _ _ _ _ H8 Ty7 Ht5 Hf2) as (mc9 & last9 & Ty9 & H9).
+  change (mark_ended 1 Xc) with ((cTD, true) :: Xt) in H9.
+  pose proof (pop_ctx_ST stk _ _ _ _ _ _ _ _ _ _ _ H9) as H10.
+  (* `end ;` *)
+  assert (He : toks_at (S (S (S k)) + 4 * n0 + length (render_vsecs vs)) [tEnd; tSemi; t']).
+  { apply (toks_at_shift _ _ (render_vsecs vs)); [|reflexivity].
+    apply (toks_at_shift _ _ (render_fields n0)); [exact Ht3|apply render_fields_length]. }
+  replace (S (S (S k)) + 4 * n0 + length (render_vsecs vs)) with e in * by (unfold e; lia).
+  assert (He0 : nth_error T e = Some tEnd) by exact (toks_at_0 _ _ _ He eq_refl).
+  assert (He1 : nth_error T (S e) = Some tSemi) by (rewrite <- Nat.add_1_r; exact (He 1 _ eq_refl)).
+  assert (He2 : nth_error T (S (S e)) = Some t') by (replace (S (S e)) with (e + 2) by lia; exact (He 2 _ eq_refl)).
+  pose proof (fun p => tdef_tail stk p _ _ _ _ _ _ _ _ t' H10 Ty9 He0 He1 He2 Hc) as H11.
+  eexists. replace (e + 2) with (S (S e)) by lia. eapply (ST_lists stk); [exact (H11 _)| |].
+  - unfold bl. rewrite map_app, <- !app_assoc. cbn [app]. rewrite <- ?app_assoc. cbn [app].
+    replace (k + 1) with (S k) by lia. replace (k + 2) with (S (S k)) by lia. replace (k + 3) with (S (S (S k))) by lia.
+    replace (e + 1) with (S e) by lia. reflexivity.
+  - unfold bl. rewrite map_app, <- !app_assoc. cbn [app]. rewrite <- ?app_assoc. cbn [app].
+    replace (k + 3) with (S (S (S k))) by lia. reflexivity.
+Qed.
+
+(* ---------------- the type definitions of a `type` section *)
+Definition tneed (td : tdef) : nat :=
+  match td with TRec j => j + 7 | TCls n0 vs => Nat.max (n0 + 5) (vneed vs + 7 + length vs) end.
+Fixpoint tsneed (ts : list tdef) : nat := match ts with [] => 0 | td :: r => Nat.max (tneed td + 3) (tsneed r) end.
+Lemma tdef_run stk td f s k L M mc last lv a t' :
+  ST stk s k L [] M mc last Xt lv a -> toks_at k (render_tdef td ++ [t']) -> (t' = tI \/ is_sect2 t' = true) -> tneed td <= f ->
+  exists last',
+    ST stk (RUN (S (S (S f))) C_statement s) (k + length (render_tdef td)) (L ++ map ll_toks (tdef_lines k td)) []
+       (M ++ map meta_of (tdef_lines k td)) (mkLM None 1%N LLT_Unknown) last' Xt lv a.
+Proof.
+  intros H Ht Hc Hf. destruct td as [j|n0 vs]; cbn [tneed] in Hf.
+  - assert (Ht' : toks_at k (tI :: tEq :: tRecord :: render_fields j ++ render_vsecs [] ++ [tEnd; tSemi; t'])).
+    { cbn [render_tdef app render_vsecs] in Ht |- *. rewrite <- app_assoc in Ht. exact Ht. }
+    destruct (tbody_run stk tRecord j [] f _ _ _ _ _ _ _ _ t' H (or_introl eq_refl) Ht' Hc ltac:(lia) ltac:(cbn [vneed length]; lia)) as (last' & H1).
+    cbv zeta in H1. cbn [render_vsecs vsec_lines length] in H1. rewrite app_nil_r, Nat.add_0_r in H1.
+    exists last'.
+    assert (El : length (render_tdef (TRec j)) = 3 + 4 * j + 2) by (cbn [render_tdef length]; rewrite app_length, render_fields_length; cbn [length]; lia).
+    replace (k + length (render_tdef (TRec j))) with (k + 3 + 4 * j + 2) by lia.
+    unfold tdef_lines. rewrite El. replace (k + (3 + 4 * j + 2) - 2) with (k + 3 + 4 * j) by lia.
+    eapply (ST_lists stk); [exact H1| |].
+    + cbn [map ll_toks]. rewrite map_app. reflexivity.
+    + cbn [map meta_of ll_parent ll_level ll_type]. rewrite map_app. reflexivity.
+  - assert (Ht' : toks_at k (tI :: tEq :: tClass :: render_fields n0 ++ render_vsecs vs ++ [tEnd; tSemi; t'])).
+    { cbn [render_tdef app] in Ht |- *. rewrite <- !app_assoc in Ht. exact Ht. }
+    destruct (tbody_run stk tClass n0 vs f _ _ _ _ _ _ _ _ t' H (or_intror eq_refl) Ht' Hc ltac:(lia) ltac:(lia)) as (last' & H1).
+    cbv zeta in H1. exists last'.
+    assert (El : length (render_tdef (TCls n0 vs)) = 3 + 4 * n0 + length (render_vsecs vs) + 2)
+      by (cbn [render_tdef length]; rewrite !app_length, render_fields_length; cbn [length]; lia).
+    replace (k + length (render_tdef (TCls n0 vs))) with (k + 3 + 4 * n0 + length (render_vsecs vs) + 2) by lia.
+    unfold tdef_lines. rewrite El. replace (k + (3 + 4 * n0 + length (render_vsecs vs) + 2) - 2) with (k + 3 + 4 * n0 + length (render_vsecs vs)) by lia.
+    eapply (ST_lists stk); [exact H1| |].
+    + cbn [map ll_toks]. rewrite !map_app. reflexivity.
+    + cbn [map meta_of ll_parent ll_level ll_type]. rewrite !map_app. reflexivity.
+Qed.
+Lemma tdefs_head r t' : is_sect2 t' = true -> exists t'' rest, render_tdefs r ++ [t'] = t'' :: rest /\ (t'' = tI \/ is_sect2 t'' = true).
+Proof.
+  intros H. destruct r as [|[j|n0 vs] r]; cbn [render_tdefs render_tdef app]; eexists _, _; (split; [reflexivity|]); auto.
+Qed.
+Lemma tdefs_run stk ts : forall f s k L M mc last lv a t',
+  ST stk s k L [] M mc last Xt lv a -> lm_type mc = LLT_Unknown -> toks_at k (render_tdefs ts ++ [t']) -> is_sect2 t' = true ->
+  tsneed ts + length ts + 1 <= f ->
+  exists mc' last', lm_type mc' = LLT_Unknown /\
+    ST stk (RUN f C_structures s) (k + length (render_tdefs ts)) (L ++ map ll_toks (tdefs_lines k ts)) []
+       (M ++ map meta_of (tdefs_lines k ts)) mc' last' (mark_ended 1 Xt) lv a.
+Proof.
+  induction ts as [|td r IH]; intros f s k L M mc last lv a t' H Hty Ht Hs Hf.
+  - destruct f as [|f]; [lia|]. cbn [render_tdefs app] in Ht. pose proof (toks_at_0 _ _ _ Ht eq_refl) as Hk.
+    destruct (ends_D cType [(cTop, false)] t' (or_intror eq_refl) Hs) as (HnE & _ & He).
+    rewrite (structures_stop stk _ _ _ _ _ _ _ _ _ _ _ _ _ H Hk HnE (He _ _ _ _ _ _ _ _ _ _ H Hk)).
+    cbn [render_tdefs tdefs_lines map length]. rewrite !app_nil_r, Nat.add_0_r.
+    exists mc, last. split; [exact Hty|]. exact (update_statuses_ST stk 1 _ _ _ _ _ _ _ _ _ _ H).
+  - cbn [tsneed length] in Hf. destruct f as [|[|[|[|f]]]]; try lia. cbn [render_tdefs] in Ht. rewrite <- app_assoc in Ht.
+    destruct (tdefs_head r t' Hs) as (t'' & rest & Er & Hc'').
+    assert (Hk : nth_error T k = Some tI) by (apply (toks_at_0 _ _ _ Ht); destruct td; reflexivity).
+    assert (Ht1 : toks_at k (render_tdef td ++ [t''])).
+    { apply (toks_at_prefix _ _ rest). rewrite <- app_assoc. cbn [app]. rewrite <- Er. exact Ht. }
+    assert (Ht2 : toks_at (k + length (render_tdef td)) (render_tdefs r ++ [t'])) by exact (toks_at_shift _ _ _ _ Ht eq_refl).
+    pose proof (ending_D stk _ _ _ _ _ _ _ _ _ _ _ _ H (or_intror eq_refl) Hk ltac:(right; left; reflexivity)) as E0. cbn [is_sect2 tI] in E0.
+    rewrite (structures_ident stk _ _ _ _ _ _ _ _ _ _ _ H Hk E0).
+    destruct (tdef_run stk td f _ _ _ _ _ _ _ _ t'' H Ht1 Hc'' ltac:(lia)) as (last1 & H1).
+    destruct (IH (S (S (S f))) _ _ _ _ _ _ _ _ t' H1 eq_refl Ht2 Hs ltac:(lia)) as (mc' & last' & Ty' & H2).
+    exists mc', last'. split; [exact Ty'|].
+    replace (k + length (render_tdefs (td :: r))) with (k + length (render_tdef td) + length (render_tdefs r))
+      by (cbn [render_tdefs]; rewrite app_length; lia).
+    eapply (ST_lists stk); [exact H2| |]; cbn [tdefs_lines]; rewrite map_app, app_assoc; reflexivity.
+Qed.
+
+(* ---------------- one section `var` / `const` / `type`, all sections, the unit *)
+Definition usneed (dc : udecl) : nat :=
+  match dc with UVar j | UConst j => j + 5 | UType ts => tsneed ts + length ts + 1 end.
+Fixpoint udneed (ds : list udecl) : nat := match ds with [] => 0 | dc :: r => Nat.max (usneed dc) (udneed r) end.
+Lemma usection_run dc f s K L M mc last lv a t' :
+  ST [] s K L [] M mc last [(cTop, false)] lv a -> lm_type mc = LLT_Unknown ->
+  toks_at K (render_udecl dc ++ [t']) -> is_sect2 t' = true -> usneed dc <= f ->
+  exists s' mc' last', RUN (S (S (S f))) C_structures s = RUN (S (S f)) C_structures s' /\ lm_type mc' = LLT_Unknown /\
+    ST [] s' (K + length (render_udecl dc)) (L ++ [K] :: map ll_toks (usection_lines (S K) dc)) []
+       (M ++ mkLM None 0%N LLT_Unknown :: map meta_of (usection_lines (S K) dc)) mc' last' [(cTop, false)] lv a.
+Proof.
+  intros H Hty Ht Hs Hf.
+  set (tk := match dc with UVar _ => tVar | UConst _ => tConst | UType _ => tType end).
+  set (cx := match dc with UType _ => cType | _ => cDecl end).
+  assert (HK : nth_error T K = Some tk) by (apply (toks_at_0 _ _ _ Ht); destruct dc; reflexivity).
+  assert (HnE : tk <> RTT_Eof) by (unfold tk; destruct dc; discriminate).
+  rewrite (run_S _ C_structures _ (ST_err [] _ _ _ _ _ _ _ _ _ _ H)).
+  unfold arm_structures. rewrite (ST_cur_some [] _ _ _ _ _ _ _ _ _ _ _ H HK HnE).
+  assert (E1 : ending_ctx pass s = None).
+  { unfold ending_ctx. rewrite (ST_ctx [] _ _ _ _ _ _ _ _ _ _ H). cbn [ending_go cTop ctx c_pred c_opaque eval_pred].
+    rewrite (ST_cur_some [] _ _ _ _ _ _ _ _ _ _ _ H HK HnE). unfold tk. destruct dc; reflexivity. }
+  rewrite E1.
+  assert (Sa : sarm_of tk = SA_decl (match dc with UVar _ => KK_Var DK_Other | UConst _ => KK_Const DK_Other | UType _ => KK_Type end))
+    by (unfold tk; destruct dc; reflexivity).
+  rewrite Sa. unfold sa_decl. rewrite (cTop_ctype _ _ _ _ _ _ _ _ _ H).
+  assert (S2 : exists s2, next_token pass (set_current_decl_kind pass DK_Section s) = s2 /\ ST [] s2 (S K) L [K] M mc last [(cTop, false)] lv a).
+  { unfold set_current_decl_kind. destruct dc as [j|j|ts].
+    - destruct (upd_cur_next_ST [] (fun t => match t with
+                    | RTT_Keyword (KK_Const _) => Some (RTT_Keyword (KK_Const DK_Section))
+                    | RTT_Keyword (KK_Var _) => Some (RTT_Keyword (KK_Var DK_Section))
+                    | _ => None end) _ _ _ _ _ _ _ _ _ _ _ H HK HnE eq_refl) as [_ H2]. eexists. split; [reflexivity|exact H2].
+    - destruct (upd_cur_next_ST [] (fun t => match t with
+                    | RTT_Keyword (KK_Const _) => Some (RTT_Keyword (KK_Const DK_Section))
+                    | RTT_Keyword (KK_Var _) => Some (RTT_Keyword (KK_Var DK_Section))
+                    | _ => None end) _ _ _ _ _ _ _ _ _ _ _ H HK HnE eq_refl) as [_ H2]. eexists. split; [reflexivity|exact H2].
+    - rewrite (upd_cur_none [] _ _ _ _ _ _ _ _ _ _ _ _ H HK eq_refl). eexists. split; [reflexivity|].
+      exact (next_token_ST [] _ _ _ _ _ _ _ _ _ _ H ltac:(exists tType; split; [exact HK|reflexivity])). }
+  destruct S2 as (s2 & -> & H2). cbv zeta.
+  rewrite (cTop_ctype _ _ _ _ _ _ _ _ _ H2).
+  pose proof (finish_ST [] _ _ _ _ _ _ _ _ _ _ H2 ltac:(discriminate)) as H3.
+  cbn [first_parent plain_sum cTop ctx c_level ParserGrammar.L app length] in H3. rewrite Hty in H3.
+  change (clamp_u16 (0 + 0)) with 0%N in H3.
+  assert (Ct : ctx (match (match dc with UVar _ => KK_Var DK_Other | UConst _ => KK_Const DK_Other | UType _ => KK_Type end) with
+                    KK_Type => CT_TypeBlock | _ => CT_DeclarationBlock end) true P_declaration_section (ParserGrammar.L 1) = cx)
+    by (unfold cx; destruct dc; reflexivity).
+  rewrite Ct.
+  assert (Px : clevel_parent (c_level cx) = None) by (unfold cx; destruct dc; reflexivity).
+  rewrite (with_ctx_block f cx _ (ST_err [] _ _ _ _ _ _ _ _ _ _ H3) Px).
+  pose proof (finish_empty_ST [] _ _ _ _ _ _ _ _ _ H3) as H4.
+  pose proof (push_ctx_ST [] cx _ _ _ _ _ _ _ _ _ _ H4) as H5.
+  assert (Ht1 : toks_at (S K) (match dc with UVar j => render_members [tI; tColon; tI; tSemi] j | UConst j => render_members [tI; tEq; tI; tSemi] j
+                                | UType ts => render_tdefs ts end ++ [t'])).
+  { rewrite <- Nat.add_1_r. apply (toks_at_shift K 1 [tk]); [|reflexivity]. destruct dc; exact Ht. }
+  assert (S6 : exists mc6 last6, lm_type mc6 = LLT_Unknown /\
+               ST [] (RUN f C_structures (push_ctx pass cx (finish_logical_line pass (finish_logical_line pass s2))))
+                  (K + length (render_udecl dc)) ((L ++ [[K]]) ++ map ll_toks (usection_lines (S K) dc)) []
+                  ((M ++ [mkLM None 0%N LLT_Unknown]) ++ map meta_of (usection_lines (S K) dc)) mc6 last6 (mark_ended 1 ((cx, false) :: [(cTop, false)])) lv a).
+  { destruct dc as [j|j|ts]; cbn [usneed] in Hf; unfold cx in *.
+    - destruct (gmembers_run false [] j f _ _ _ _ _ _ _ _ _ _ t' H5 (or_introl eq_refl) ltac:(discriminate) eq_refl eq_refl Ht1
+                  (ends_D cDecl _ t' (or_introl eq_refl) Hs) Hf) as (mc6 & last6 & Ty6 & H6).
+      exists mc6, last6. split; [exact Ty6|]. cbn [render_udecl length usection_lines]. unfold render_fields. rewrite render_members_length. cbn [length].
+      replace (K + S (j * 4)) with (S K + 4 * j) by lia. exact H6.
+    - destruct (gmembers_run true [] j f _ _ _ _ _ _ _ _ _ _ t' H5 (or_introl eq_refl) ltac:(reflexivity) eq_refl eq_refl Ht1
+                  (ends_D cDecl _ t' (or_introl eq_refl) Hs) Hf) as (mc6 & last6 & Ty6 & H6).
+      exists mc6, last6. split; [exact Ty6|]. cbn [render_udecl length usection_lines]. rewrite render_members_length. cbn [length].
+      replace (K + S (j * 4)) with (S K + 4 * j) by lia. exact H6.
+    - destruct (tdefs_run [] ts f _ _ _ _ _ _ _ _ t' H5 eq_refl Ht1 Hs Hf) as (mc6 & last6 & Ty6 & H6).
+      exists mc6, last6. split; [exact Ty6|]. cbn [render_udecl length usection_lines].
+      replace (K + S (length (render_tdefs ts))) with (S K + length (render_tdefs ts)) by lia. exact H6. }
+  destruct S6 as (mc6 & last6 & Ty6 & H6).
+  pose proof (finish_empty_ST [] _ _ _ _ _ _ _ _ _ H6) as H7.
+  change (mark_ended 1 [(cx, false); (cTop, false)]) with [(cx, true); (cTop, false)] in H7.
+  pose proof (pop_ctx_ST [] _ _ _ _ _ _ _ _ _ _ _ H7) as H8.
+  unfold s_loop. eexists _, _, _. split; [reflexivity|]. split; [|eapply (ST_lists []); [exact H8| |]].
+  - reflexivity.
+  - rewrite <- app_assoc. reflexivity.
+  - rewrite <- app_assoc. reflexivity.
+Qed.
+Lemma udecls_head r t' : is_sect2 t' = true -> exists t'' rest, render_udecls r ++ [t'] = t'' :: rest /\ is_sect2 t'' = true.
+Proof.
+  intros H. destruct r as [|[j|j|ts] r]; cbn [render_udecls render_udecl app]; eexists _, _; (split; [reflexivity|]); auto.
+Qed.
+Lemma udecls_run ds : forall f s K L M mc last lv a t',
+  ST [] s K L [] M mc last [(cTop, false)] lv a -> lm_type mc = LLT_Unknown ->
+  toks_at K (render_udecls ds ++ [t']) -> is_sect2 t' = true -> udneed ds + 2 <= f ->
+  exists s' mc' last', RUN (length ds + f) C_structures s = RUN f C_structures s' /\ lm_type mc' = LLT_Unknown /\
+    ST [] s' (K + length (render_udecls ds)) (L ++ map ll_toks (udecl_lines K ds)) []
+       (M ++ map meta_of (udecl_lines K ds)) mc' last' [(cTop, false)] lv a.
+Proof.
+  induction ds as [|dc r IH]; intros f s K L M mc last lv a t' H Hty Ht Hs Hf.
+  - exists s, mc, last. split; [reflexivity|]. split; [exact Hty|]. cbn [render_udecls udecl_lines map length]. rewrite !app_nil_r, Nat.add_0_r. exact H.
+  - cbn [udneed] in Hf. cbn [render_udecls] in Ht. rewrite <- app_assoc in Ht.
+    destruct (udecls_head r t' Hs) as (t'' & rest & Er & Hs'').
+    assert (Ht1 : toks_at K (render_udecl dc ++ [t''])).
+    { apply (toks_at_prefix _ _ rest). rewrite <- app_assoc. cbn [app]. rewrite <- Er. exact Ht. }
+    assert (Ht2 : toks_at (K + length (render_udecl dc)) (render_udecls r ++ [t'])) by exact (toks_at_shift _ _ _ _ Ht eq_refl).
+    destruct f as [|[|f]]; try lia.
+    cbn [length]. replace (S (length r) + S (S f)) with (S (S (S (length r + f)))) by lia.
+    destruct (usection_run dc (length r + f) _ _ _ _ _ _ _ _ t'' H Hty Ht1 Hs'' ltac:(lia)) as (s1 & mc1 & last1 & Eq1 & Ty1 & H1).
+    rewrite Eq1. replace (S (S (length r + f))) with (length r + S (S f)) by lia.
+    destruct (IH (S (S f)) _ _ _ _ _ _ _ _ t' H1 Ty1 Ht2 Hs ltac:(lia)) as (s2 & mc2 & last2 & Eq2 & Ty2 & H2).
+    exists s2, mc2, last2. split; [exact Eq2|]. split; [exact Ty2|].
+    replace (K + length (render_udecls (dc :: r))) with (K + length (render_udecl dc) + length (render_udecls r))
+      by (cbn [render_udecls]; rewrite app_length; lia).
+    eapply (ST_lists []); [exact H2| |].
+    + cbn [udecl_lines map ll_toks]. rewrite map_app, <- !app_assoc. cbn [app]. replace (K + 1) with (S K) by lia. reflexivity.
+    + cbn [udecl_lines map meta_of ll_parent ll_level ll_type]. rewrite map_app, <- !app_assoc. cbn [app]. replace (K + 1) with (S K) by lia. reflexivity.
+Qed.
+(* a unit with var, const and type sections, then the main block *)
+Theorem unit2_run ds ss f s0 mc0 last0 lv a :
+  wf ss = true -> ST [] s0 0 [] [] [] mc0 last0 [] lv a ->
+  toks_at 0 (render_unit2 ds ss) -> n = length (render_unit2 ds ss) ->
+  udneed ds + 2 <= f -> 8 + need ss <= f ->
+  exists mc' last',
+    ST [] (RUN (S (S (S (length ds + f)))) C_top s0) n (map ll_toks (pexpected_unit2 ds ss)) []
+       (map meta_of (pexpected_unit2 ds ss)) mc' last' [] lv a.
+Proof.
+  intros Hwf H Ht Hn Hfd Hfs.
+  rewrite (top_head (length ds + f) s0 (ST_err (@nil nat) _ _ _ _ _ _ _ _ _ _ H)).
+  pose proof (finish_empty_ST (@nil nat) _ _ _ _ _ _ _ _ _ H) as H0.
+  pose proof (push_ctx_ST (@nil nat) cTop _ _ _ _ _ _ _ _ _ _ H0) as H1.
+  unfold render_unit2 in Ht.
+  assert (Htp : toks_at (length (render_udecls ds)) (render_prog ss)) by exact (toks_at_shift 0 _ _ _ Ht eq_refl).
+  destruct (prog_toks _ _ Htp) as (Ht0 & Htb & HtD & HtE).
+  assert (Htd : toks_at 0 (render_udecls ds ++ [tBegin])).
+  { apply (toks_at_prefix _ _ (render ss ++ [tEnd; tDot; RTT_Eof])). rewrite <- app_assoc. exact Ht. }
+  destruct (udecls_run ds f _ 0 [] [] _ _ _ _ tBegin H1 eq_refl Htd eq_refl Hfd) as (s2 & mc2 & last2 & Eq2 & Ty2 & H2).
+  rewrite Eq2. cbn [app Nat.add] in H2.
+  destruct (main_core ss f _ _ _ _ _ _ _ _ Hwf H2 Ty2 Ht0 Htb HtD HtE Hfs) as (last3 & H9).
+  cbv zeta in H9.
+  destruct (top_tail_run (S (length ds + f)) _ _ _ _ _ _ _ _ H9 HtE
+              ltac:(rewrite Hn; unfold render_unit2; rewrite app_length; unfold render_prog; cbn [length]; rewrite app_length; cbn [length]; lia)) as (mc' & last' & H15).
+  exists mc', last'. eapply (ST_lists []); [exact H15| |].
+  - unfold pexpected_unit2, main_lines. cbv zeta. rewrite map_length. rewrite !map_app. cbn [map ll_toks]. rewrite map_app. cbn [map ll_toks].
+    rewrite <- !app_assoc. cbn [app]. rewrite <- !app_assoc. cbn [app]. rewrite !Nat.add_1_r.
+    replace (S (length (render_udecls ds)) + length (render ss) + 2) with (S (S (S (length (render_udecls ds)) + length (render ss)))) by lia.
+    reflexivity.
+  - unfold pexpected_unit2, main_lines. cbv zeta. rewrite map_length. rewrite !map_app. cbn [map meta_of ll_parent ll_level ll_type]. rewrite map_app.
+    cbn [map meta_of ll_parent ll_level ll_type].
+    rewrite <- !app_assoc. cbn [app]. rewrite <- !app_assoc. cbn [app]. rewrite !Nat.add_1_r. reflexivity.
+Qed.
+
+
 End Frag.
 
 Lemma render_plain ss : Forall plain (render ss).
@@ -3764,7 +4486,7 @@ Lemma cement_fin t : plain t -> cement (fin t) = fin t.
 Proof.
   destruct t as [o| |k0|k0| | | | | | |]; try (cbn; reflexivity); try contradiction.
   - destruct o; try (cbn; reflexivity); try contradiction. destruct k; cbn; reflexivity.
-  - destruct k0; try contradiction. cbn. reflexivity.
+  - destruct k0; try contradiction; cbn; reflexivity.
   - destruct k0; try (cbn; reflexivity); try contradiction; match goal with d : DeclKind |- _ => destruct d; cbn; reflexivity end.
 Qed.
 Lemma upd_nth_id {A} (f : A -> A) i : forall l, (forall x, In x l -> f x = x) -> upd_nth i f l = l.
